@@ -7,8 +7,12 @@ import (
 	"encoding/hex"
 	"encoding/json"
 	"fmt"
+	"math/rand"
 	"os"
+	"runtime"
 	"strings"
+	"sync"
+	"time"
 
 	"github.com/pborman/uuid"
 
@@ -23,6 +27,11 @@ import (
 //	root <seed> | xpub <xprv> | child <xprv> <sel> <0|1> | pubchild <xpub> <sel>
 //	derive <xprv> <path> | pubderive <xpub> <path> | sign <xprv> <msg> | verify <xpub> <msg> <sig>
 //	ks <auth> <auth2>      (encrypt with auth, decrypt with auth2; light scrypt parameters)
+//
+// Concurrent signing: `csign <goroutines> <gomaxprocs> <seed>` => ok   — the batch (keys derived from
+// the seed, messages of 32 bytes … 64 KiB) is signed by that many goroutines at once; every
+// signature must verify under the derived xpub AND equal the signature the same (key, message)
+// gets sequentially; each call under recover (`panic:sign`), the batch under a watchdog.
 //
 // Stateful key-store histories on ONE running pseudohsm.HSM over a temp directory (slots = aliases
 // k0..k2, passwords p0..p2 by number; a case starts with `reset`):
@@ -182,6 +191,124 @@ func c28impl(w []string) (out string) {
 	return "bad-op"
 }
 
+// ---- concurrent signing ------------------------------------------------------------------
+
+func c28csign(c *Ctx, w []string) (out string, fail string) {
+	var g, procs int
+	var seed int64
+	if _, err := fmt.Sscanf(w[1]+" "+w[2]+" "+w[3], "%d %d %d", &g, &procs, &seed); err != nil || g < 1 || g > 512 {
+		return "bad-op", ""
+	}
+	rng := rand.New(rand.NewSource(seed))
+	// several derived keys
+	type key struct {
+		xprv chainkd.XPrv
+		xpub chainkd.XPub
+	}
+	keys := make([]key, 4)
+	for i := range keys {
+		sd := make([]byte, 32)
+		rng.Read(sd)
+		x := chainkd.RootXPrv(sd).Derive([][]byte{{byte(i)}, sd[:3]})
+		keys[i] = key{x, x.XPub()}
+	}
+	sizes := []int{32, 33, 64, 100, 127, 128, 129, 200, 1000, 4096, 65536}
+	type job struct {
+		k    int
+		msg  []byte
+		want []byte
+	}
+	perG := 48
+	jobs := make([][]job, g)
+	for i := range jobs {
+		for j := 0; j < perG; j++ {
+			n := sizes[rng.Intn(len(sizes))]
+			if rng.Intn(3) == 0 { // a good share of long messages: most of the call is then spent hashing
+				n = []int{4096, 16384, 65536}[rng.Intn(3)]
+			}
+			m := make([]byte, n)
+			rng.Read(m)
+			k := rng.Intn(len(keys))
+			jobs[i] = append(jobs[i], job{k, m, nil})
+		}
+	}
+	// the sequential signatures first (determinism reference)
+	for i := range jobs {
+		for j := range jobs[i] {
+			jobs[i][j].want = keys[jobs[i][j].k].xprv.Sign(jobs[i][j].msg)
+		}
+	}
+	if procs > 0 {
+		defer runtime.GOMAXPROCS(runtime.GOMAXPROCS(procs))
+	}
+	var mu sync.Mutex
+	bad, panics := 0, 0
+	first := ""
+	var wg sync.WaitGroup
+	start := make(chan struct{})
+	for i := 0; i < g; i++ {
+		wg.Add(1)
+		go func(js []job) {
+			defer wg.Done()
+			<-start
+			for _, jb := range js {
+				func() {
+					defer func() {
+						if r := recover(); r != nil {
+							mu.Lock()
+							panics++
+							if first == "" {
+								first = fmt.Sprint("panic:sign: ", r)
+							}
+							mu.Unlock()
+						}
+					}()
+					sig := keys[jb.k].xprv.Sign(jb.msg)
+					ok := keys[jb.k].xpub.Verify(jb.msg, sig)
+					if !ok || !bytes.Equal(sig, jb.want) {
+						mu.Lock()
+						bad++
+						if first == "" {
+							first = fmt.Sprintf("key %d, message of %d bytes %x…: concurrent signature verifies=%v, equals the sequential signature=%v", jb.k, len(jb.msg), jb.msg[:8], ok, bytes.Equal(sig, jb.want))
+						}
+						mu.Unlock()
+					}
+				}()
+			}
+		}(jobs[i])
+	}
+	done := make(chan struct{})
+	go func() { wg.Wait(); close(done) }()
+	// a stirrer: every collection stops the world, so the signing goroutines are descheduled at
+	// arbitrary points of a call and resumed on other processors
+	go func() {
+		for {
+			select {
+			case <-done:
+				return
+			default:
+				runtime.GC()
+				time.Sleep(200 * time.Microsecond)
+			}
+		}
+	}()
+	close(start)
+	select {
+	case <-done:
+	case <-time.After(120 * time.Second):
+		return "timeout", "concurrent signing batch did not finish within 120 s (watchdog)"
+	}
+	c.Count(fmt.Sprintf("csign/signatures-g%d-p%d", g, procs))
+	c.Dist[fmt.Sprintf("csign/signatures-g%d-p%d", g, procs)] += g*perG - 1
+	switch {
+	case panics > 0:
+		return "panic", fmt.Sprintf("%d panics, %d bad signatures of %d; first: %s", panics, bad, g*perG, first)
+	case bad > 0:
+		return "bad", fmt.Sprintf("%d of %d concurrent signatures are wrong; first: %s", bad, g*perG, first)
+	}
+	return "ok", ""
+}
+
 // ---- stateful HSM histories -------------------------------------------------------------
 
 type c28hsm struct {
@@ -328,6 +455,23 @@ func c28hsmOp(c *Ctx, w []string) (out string, fail string) {
 }
 
 func c28op(c *Ctx, line string) string {
+	if f := strings.Fields(line); len(f) >= 4 && f[0] == "csign" {
+		out, fail := c28csign(c, f)
+		if out == "bad-op" {
+			return out
+		}
+		c.Op(line, out)
+		c.Count("csign/" + out)
+		c.Distinct(line)
+		if fail != "" {
+			sig := "sign-concurrent:" + strings.Join(f[:4], " ")
+			if out == "panic" {
+				sig = "panic:sign:" + strings.Join(f[:4], " ")
+			}
+			c.Fail(sig, fail)
+		}
+		return out
+	}
 	if f := strings.Fields(line); len(f) > 0 && (f[0] == "reset" || strings.HasPrefix(f[0], "h")) {
 		var w []string
 		kind := "hsm"
@@ -665,7 +809,7 @@ func c28history(c *Ctx, steps int, kind string) {
 
 func runC28(c *Ctx) {
 	defer c28hsmClose()
-	c.Rule = "random and structured seeds (0..64 bytes), non-hardened paths of depth 0..8 (a few of depth 64) with selectors of 0..72 bytes, messages of 0..100 bytes: root key, xpub, private-side derivation, public-side derivation (must agree), single hardened / non-hardened steps, signature, verification under the own key (true), another key, another message, a tampered or truncated signature (false); key file with right / wrong password and tampered ciphertext; HSM on disk. Key-store histories: one running HSM per case over a temp directory, 30-60 random operations (create / sign / check-password / reset-password incl. old and new password right after it / delete / new HSM object / probe of all 9 slot-password pairs) over 3 aliases and 3 passwords, compared with the reference model and with a new HSM object over the same directory. Precondition-violating keys (scalar overflow, invalid xpub point) are run for the panic branches (differential only). A case is distinct by its op line."
+	c.Rule = "random and structured seeds (0..64 bytes), non-hardened paths of depth 0..8 (a few of depth 64) with selectors of 0..72 bytes, messages of 0..100 bytes: root key, xpub, private-side derivation, public-side derivation (must agree), single hardened / non-hardened steps, signature, verification under the own key (true), another key, another message, a tampered or truncated signature (false); key file with right / wrong password and tampered ciphertext; HSM on disk. Concurrent signing batches (more goroutines than processors, GOMAXPROCS 1 / 2 / default; messages 32 bytes .. 64 KiB, 4 derived keys; every signature verifies and equals the sequential one; recover + watchdog). Key-store histories: one running HSM per case over a temp directory, 30-60 random operations (create / sign / check-password / reset-password incl. old and new password right after it / delete / new HSM object / probe of all 9 slot-password pairs) over 3 aliases and 3 passwords, compared with the reference model and with a new HSM object over the same directory. Precondition-violating keys (scalar overflow, invalid xpub point) are run for the panic branches (differential only). A case is distinct by its op line."
 	if c.Replay != "" {
 		for _, l := range c.ReplayLines() {
 			c28op(c, l)
@@ -674,6 +818,18 @@ func runC28(c *Ctx) {
 	}
 	for _, l := range c.CorpusLines() {
 		c28op(c, l)
+	}
+	// concurrent signing: more goroutines than processors, also with GOMAXPROCS 1 and 2
+	c28op(c, "reset #kind=stateless")
+	for _, pr := range []int{1, 2, 0} {
+		g := 4*runtime.NumCPU() + 3
+		if g > 96 {
+			g = 96
+		}
+		c28op(c, fmt.Sprintf("csign %d %d %d #kind=concurrent", g, pr, c.Rng.Int63n(1<<40)))
+	}
+	for i := 0; i < c.N/300; i++ {
+		c28op(c, fmt.Sprintf("csign %d %d %d #kind=concurrent", 8+c.Rng.Intn(64), []int{1, 2, 3, 0}[c.Rng.Intn(4)], c.Rng.Int63n(1<<40)))
 	}
 	// key-store histories on one running HSM (light scrypt through the verif hook; a few with the
 	// production LightScrypt parameters)
